@@ -41,6 +41,9 @@ def cases(tier):
         for req in ('none', 'true', 'false'):
             out.append(dict(role=role, require_tls=req, dnsname=1 if role == 'active' else 0))
     out.append(dict(role='active', require_tls='none', dnsname=0))
+    # the peer announces an empty node ID
+    out.append(dict(role='active', require_tls='none', dnsname=1, emptynode=1))
+    out.append(dict(role='passive', require_tls='true', dnsname=0, emptynode=1))
     return out
 
 
@@ -130,13 +133,14 @@ def harness(case, tier):
     req = {'none': None, 'true': True, 'false': False}[case['require_tls']]
     nmax = 2 if tier == 'quick' else 3
     lists = {}
-    refs = {'ip': ipaddress.ip_address(PEER_IP), 'dns': PEER_DNS, 'uri': PEER_NODE}
+    node = '' if case.get('emptynode') else PEER_NODE
+    refs = {'ip': ipaddress.ip_address(PEER_IP), 'dns': PEER_DNS, 'uri': node}
     match = {}
     for kind in ('ip', 'dns', 'uri'):
         n = c.choose(nmax + 1, 'san-count-' + kind)
         items = []
         for j in range(n):
-            v = c.sym_int('%s%d' % (kind, j), 0, 1)
+            v = c.sym_int('%s%d' % (kind, j), 0, 0 if (kind == 'uri' and not node) else 1)   # a URI name is never empty
             items.append(SymId(kind, v, refs[kind]))
         lists[kind] = items
         match[kind] = [it.var for it in items]
@@ -158,12 +162,12 @@ def harness(case, tier):
     shim.load_der_x509_certificate = lambda der, backend=None: ModelCert(real_x509, lists)
     S.x509 = shim
     try:
-        return run(c, S, case, cfg, passive, this_can, peer_can, hs_ok, req, req_host, req_node, match, lists)
+        return run(c, S, case, cfg, passive, this_can, peer_can, hs_ok, req, req_host, req_node, match, lists, node)
     finally:
         S.x509 = real_x509
 
 
-def run(c, S, case, cfg, passive, this_can, peer_can, hs_ok, req, req_host, req_node, match, lists):
+def run(c, S, case, cfg, passive, this_can, peer_can, hs_ok, req, req_host, req_node, match, lists, node):
     from vf.tcpclenv import Pipe, FakeSock
     from gi.repository import GLib
     import dbus.service
@@ -204,7 +208,7 @@ def run(c, S, case, cfg, passive, this_can, peer_can, hs_ok, req, req_host, req_
     closed_early = 'A' in w.closed_socks
     if not closed_early:
         rx.buf = rx.buf + rfc9174.encode(dict(kind='SESS_INIT', keepalive=0, segment_mru=2 ** 64 - 1,
-                                              transfer_mru=2 ** 64 - 1, node_id=PEER_NODE.encode(), ext=[]))
+                                              transfer_mru=2 ** 64 - 1, node_id=node.encode(), ext=[]))
         pump()
     msgs, _r = rfc9174.decode_stream(tx.total)
     esc = GLib.STATE.escaped
@@ -252,7 +256,7 @@ def run(c, S, case, cfg, passive, this_can, peer_can, hs_ok, req, req_host, req_
         c.prove(established and not terms, 'authenticated-session-established', detail=detail)
         p = h.get_session_parameters()
         if uri_ok:
-            c.prove(p.get('authn_nodeid') == PEER_NODE, 'authn-node-id-reported', detail=p.get('authn_nodeid'))
+            c.prove(p.get('authn_nodeid') == node, 'authn-node-id-reported', detail=p.get('authn_nodeid'))
         return {'class': 'proceeds', 'why': 'authenticated'}
     why = 'contradiction' if contradiction else ('host-required' if (req_host and not host_authn) else 'node-required')
     c.prove(not established, 'not-established-when-authentication-fails[%s]' % why, detail=detail)
